@@ -140,8 +140,8 @@ def run(ctx):
     rng = np.random.default_rng(ctx.seed)
     replay_rounding_stab(ctx, np.random.default_rng(ctx.seed + 11), quick)
     rows = [r_ for r_ in res.json if r_['d'] >= 2]
-    if len(rows) > (120 if quick else 4000):
-        rows = [rows[j] for j in rng.permutation(len(rows))[:(120 if quick else 4000)]]
+    if len(rows) > (120 if quick else 1500):
+        rows = [rows[j] for j in rng.permutation(len(rows))[:(120 if quick else 1500)]]
     mirror_bad = 0
     for row in rows:
         blocks = row['blocks']
@@ -159,7 +159,14 @@ def run(ctx):
         v, p = teneva.mul_scalar(Y1, Y2, use_stab=True)
         ok = isinstance(p, (int, np.integer)) and np.isfinite(v) and 1. <= abs(v) < 2. and frac_equal(v, int(p), mant, exp)
         ctx.check(ok, 'mul_scalar:stab', 'stabilised scalar product (v, p) = (%r, %r); exact value %s * 2^%d (d = %d)' % (v, p, mant, exp, d), case=case)
-        if abs(exp) < 900:
+        # plain arithmetic is representable only if every partial product along the chain is (not just the final value)
+        run_, worst = 0., 0.
+        for bl in blocks:
+            t_ = abs(sum(x_ * y_ for x_, y_ in zip(bl['a'], bl['b'])))
+            step_ = (np.log2(t_) if t_ > 0 else 0.) + bl['sa'] + bl['sb']
+            worst = max(worst, abs(run_ + step_), abs(run_ + step_ * bl['cnt']))
+            run_ += step_ * bl['cnt']
+        if abs(exp) < 900 and worst < 900:
             pl = teneva.mul_scalar(Y1, Y2)
             ctx.check(abs(pl - float(mant) * 2.0 ** exp) <= 1e-12 * abs(float(mant)) * 2.0 ** exp, 'mul_scalar:plain-vs-stab', 'plain scalar product differs from the stabilised one where representable', case=case)
         # norm: half-integer exponent, mantissa moderate
